@@ -660,6 +660,7 @@ func (s *State) havocLoop(l *Loop, declared map[string][]Term) {
 			fi.refs = append(fi.refs, refs[nc[0]]...)
 		}
 	}
+	var havockedCells [][2]interface{}
 	for _, a := range allocs {
 		v, ok := fr.Vals[a]
 		if !ok {
@@ -673,6 +674,7 @@ func (s *State) havocLoop(l *Loop, declared map[string][]Term) {
 		for _, f := range c.wf(nv, loc.Cell.ty, 0) {
 			s.assert(f)
 		}
+		havockedCells = append(havockedCells, [2]interface{}{nv, loc.Cell.ty})
 		s.Cells[loc.Cell] = nv
 		delete(s.CellLocs, loc.Cell)
 	}
@@ -697,6 +699,10 @@ func (s *State) havocLoop(l *Loop, declared map[string][]Term) {
 		nw := s.freshConst("WM", "Int")
 		s.assert(fmt.Sprintf("(>= %s %s)", nw, wmEntry))
 		s.WM = nw
+		// references held in loop-modified locals were allocated before the current iteration starts
+		for _, hc := range havockedCells {
+			s.assumeAllocated(hc[0].(string), hc[1].(types.Type))
+		}
 		for _, n := range compNames {
 			sortS := l.ModComps[n]
 			oldT := s.comp(n, sortS)
